@@ -184,12 +184,12 @@ fn drive(group: &[Kind], v0: i64, stmts: &[Vec<Stmt>], sched_prefix: &[usize], c
             return;
         }
         let k = group[pos[t]];
+        if (0..n).any(|u| u != t && pos[u] != 0) {
+            overlapped = true; // t is scheduled while another thread is inside a statement
+        }
         if k == Kind::Lock && lock.is_some() {
             blocked += 1;
             return; // the model's blocked step: the thread does not move
-        }
-        if (0..n).any(|u| u != t && pos[u] != 0) {
-            overlapped = true;
         }
         match baton.step(t) {
             Reached::Parked(p) if kind_of_point(p) == Some(k) => {
@@ -408,7 +408,7 @@ fn main() {
     rep.stats(json!({
         "evaluations": idx,
         "distinct_nontrivial": nontrivial.len(),
-        "rule": "driven schedules of 2-4 threads x 1-3 read-modify-write statements through ndb_execute_write (corpus witness, all 70 interleavings of 2x1 increments, 14 of 2x1 conditional sets, generated bursty schedules incl. prefixes and ids without a thread); non-trivial = some thread moved while another was inside a statement, distinct by (statements, executed schedule)",
+        "rule": "driven schedules of 2-4 threads x 1-3 read-modify-write statements through ndb_execute_write (corpus witness, all 70 interleavings of 2x1 increments, 14 of 2x1 conditional sets, generated bursty schedules incl. prefixes and ids without a thread); non-trivial = some thread was scheduled while another was inside a statement (contended lock or overlapping steps), distinct by (statements, executed schedule)",
         "histogram": hist,
         "direct_failures": fails,
         "stress": {"threads": 8, "per_thread": per, "final": v, "successful": ok, "seconds": secs},
